@@ -227,7 +227,14 @@ class World(sp.Obs):
         self.ev("cb_start", bid, inline)
 
     def cb_end(self, bid):
-        self.batches[bid]["cb_end"] = len(self.events)
+        b = self.batches[bid]
+        b["cb_end"] = len(self.events)
+        c = b["call"]
+        if c is not None and c < len(self.calls) and self.calls[c].get("failed_at") is None:
+            if any(i in b["items"] for (i, _t, _tag) in self.raised.get(c, ())):
+                # the failure has been handed to joblib and its callback has returned
+                self.calls[c]["failed_at"] = len(self.events)
+                self.calls[c]["pulled_at_failure"] = self.pulled[c]
         self.ev("cb_end", bid)
 
     # -- tasks
